@@ -157,14 +157,16 @@ Fixpoint enc_node (st : Z) (n : node) : bytes * Z :=
 Definition enc (st : Z) (n : node) : bytes * Z := enc_node st (reduce_all P n).
 
 (* ---- decoder *)
-Definition dec_field (c : letter) (fm st : Z) (bs : bytes) : option (arg * bytes * Z) :=
+(* [ub]: the node is a Char -- "A character is an unsigned byte (FiChar)": data = n; every other
+   byte field is data = (char) n *)
+Definition dec_field (ub : bool) (c : letter) (fm st : Z) (bs : bytes) : option (arg * bytes * Z) :=
   match c with
   | Lt => match get_byte bs with Some (b, r) => Some (Int (fp_foam_start P + b), r, st) | None => None end
   | Lo => match (if fp_bval_bytes P =? 1 then get_byte bs else get_hint bs) with
           | Some (b, r) => Some (Int (fp_bval_start P + b), r, st) | None => None end
   | Lp => match get_byte bs with Some (b, r) => Some (Int (fp_proto_start P + b), r, st) | None => None end
   | LD => match get_byte bs with Some (b, r) => Some (Int b, r, st) | None => None end
-  | Lb => match get_byte bs with Some (b, r) => Some (Int (sext8 b), r, st) | None => None end
+  | Lb => match get_byte bs with Some (b, r) => Some (Int (if ub then b else sext8 b), r, st) | None => None end
   | Lh => match get_hint bs with Some (h, r) => Some (Int h, r, st) | None => None end
   | Lw => match get_sint bs with Some (u, r) => Some (Int (sext32 u), r, st) | None => None end
   | LX => match get_int 0 bs with Some (_, r) => Some (Int 0, r, st) | None => None end
@@ -196,6 +198,7 @@ Section DecArgs.
   Variable D : Z -> bytes -> option (node * bytes * Z).
   Variable row : info_row.
   Variable fm : Z.
+  Variable ub : bool.
   Fixpoint dec_args (cnt : nat) (si : nat) (st : Z) (bs : bytes) : option (list arg * bytes * Z) :=
     match cnt with
     | O => Some ([], bs, st)
@@ -206,9 +209,9 @@ Section DecArgs.
                 match dec_args c (S si) st1 r with
                 | Some (l, r', st') => Some (Sub m :: l, r', st') | None => None end
               | None => None end
-      | Lf => match dec_field Lf fm st bs with Some (a, r, st1) => Some ([a], r, st1) | None => None end
-      | Ld => match dec_field Ld fm st bs with Some (a, r, st1) => Some ([a], r, st1) | None => None end
-      | ch => match dec_field ch fm st bs with
+      | Lf => match dec_field ub Lf fm st bs with Some (a, r, st1) => Some ([a], r, st1) | None => None end
+      | Ld => match dec_field ub Ld fm st bs with Some (a, r, st1) => Some ([a], r, st1) | None => None end
+      | ch => match dec_field ub ch fm st bs with
               | Some (a, r, st1) =>
                 match dec_args c (S si) st1 r with
                 | Some (l, r', st') => Some (a :: l, r', st') | None => None end
@@ -236,7 +239,7 @@ Section DecNode.
           | None => None
           | Some (argc, r1) =>
             if (argc <? 0) || (nary && (lim <? argc)) then None
-            else match dec_args (dec_node f) row fm (Z.to_nat argc) O st r1 with
+            else match dec_args (dec_node f) row fm (tag =? t_Char P) (Z.to_nat argc) O st r1 with
                  | None => None
                  | Some (args, r2, st') => Some (Node tag args, r2, st')
                  end
@@ -257,13 +260,13 @@ Definition fits (fm z : Z) : bool :=
   else if fm =? 1 then inrange z 0 256
   else z =? fm - fp_std_forms P.
 
-Definition wf_field (c : letter) (fm st : Z) (a : arg) : bool :=
+Definition wf_field (ub : bool) (c : letter) (fm st : Z) (a : arg) : bool :=
   match c, a with
   | Lt, Int z => inrange (z - fp_foam_start P) 0 256
   | Lo, Int z => inrange (z - fp_bval_start P) 0 (if fp_bval_bytes P =? 1 then 256 else 65536)
   | Lp, Int z => inrange (z - fp_proto_start P) 0 256
   | LD, Int z => inrange z 0 256
-  | Lb, Int z => inrange z (-128) 128
+  | Lb, Int z => if ub then inrange z 0 256 else inrange z (-128) 128
   | Lh, Int z => inrange z 0 65536
   | Lw, Int z => int32b z
   | LF, Int z => int32b z
@@ -289,6 +292,7 @@ Section WfArgs.
   Variable E : Z -> node -> bytes * Z.
   Variable row : info_row.
   Variable fm : Z.
+  Variable ub : bool.
   Fixpoint wf_args (si : nat) (args : list arg) (st : Z) : bool :=
     match args with
     | [] => true
@@ -299,9 +303,9 @@ Section WfArgs.
               | _ => false
               end
       | LX => match a with Int _ => wf_args (S si) r st | _ => false end   (* .data, 0 in trees *)
-      | Lf => wf_field Lf fm st a && match r with [] => true | _ => false end
-      | Ld => wf_field Ld fm st a && match r with [] => true | _ => false end
-      | c => wf_field c fm st a && wf_args (S si) r (snd (enc_field c fm st a))
+      | Lf => wf_field ub Lf fm st a && match r with [] => true | _ => false end
+      | Ld => wf_field ub Ld fm st a && match r with [] => true | _ => false end
+      | c => wf_field ub c fm st a && wf_args (S si) r (snd (enc_field c fm st a))
       end
     end.
 End WfArgs.
@@ -320,7 +324,7 @@ Fixpoint wf_node (st : Z) (n : node) : bool :=
       node_shape_ok tag args &&
       (if (fp_index_limit P <=? tag) && negb (r_argc row =? -1)
        then match multint_x tag with Some _ => true | None => false end else true) &&
-      wf_args wf_node enc_node row fm O args st
+      wf_args wf_node enc_node row fm (tag =? t_Char P) O args st
     end
   end.
 
